@@ -14,6 +14,7 @@ import Golib.Lists.Run
 import Golib.Lists.Wire
 import Golib.Lists.Sort
 import Golib.Lists.LinkedProof
+import Golib.Lists.Multi
 
 namespace C13
 open Lists
@@ -93,6 +94,39 @@ theorem growth_history_irrelevant {α : Type} (g1 g2 : Growth) (hg1 : g1.OK) (hg
 theorem driver_run_is_run {α : Type} (g : Growth) (z : α) (ops : List (Op α)) (l : TL α) :
     Code.runTR g z ops l [] = Code.run g z ops l := by
   rw [Code.runTR_eq]; simp
+
+/-! ### several live objects: no aliasing -/
+
+/-- **no_aliasing_lists.**  In a history over a pool of lists and caller-held slices, an operation
+    leaves every list other than its target exactly as it was: the source of `AddAll`, the source
+    of `Filtering`, and every bystander.  (Lists are values in the model, so this is the
+    specification "no shared storage"; tie B compares all live objects after every operation.) -/
+theorem no_aliasing_lists {α : Type} (g : Growth) (z : α) (op : Multi.MOp α) (st : Multi.MState α)
+    (i : Nat) (h : op.targetList ≠ some i) : (Multi.step g z op st).2.lists i = st.lists i :=
+  Multi.list_frame g z op st i h
+
+/-- **no_aliasing_slices.**  A slice handed in (`AddAllArray`) or out (`ToArray`) changes only when
+    the caller assigns or writes it, and writing it changes no list. -/
+theorem no_aliasing_slices {α : Type} (g : Growth) (z : α) (op : Multi.MOp α) (st : Multi.MState α)
+    (k : Nat) (h : op.targetArr ≠ some k) : (Multi.step g z op st).2.arrs k = st.arrs k :=
+  Multi.arr_frame g z op st k h
+
+theorem slice_write_keeps_lists {α : Type} (g : Growth) (z : α) (k i : Nat) (v : α)
+    (st : Multi.MState α) : (Multi.step g z (.arrSet k i v) st).2.lists = st.lists :=
+  Multi.arrSet_keeps_lists g z k i v st
+
+/-- **multi_object_refines.**  Every history over the pools answers as independent plain sequences
+    (one per list, one per slice), from the all-zero-value pool, under any OK capacity policy. -/
+theorem multi_object_refines {α : Type} (g : Growth) (hg : g.OK) (z : α) (ops : List (Multi.MOp α))
+    (hs : Multi.SmallRun ops Multi.SState.init) :
+    (Multi.run g z ops Multi.MState.init).1 = (Multi.srun ops Multi.SState.init).1 ∧
+    Multi.Rel (Multi.run g z ops Multi.MState.init).2 (Multi.srun ops Multi.SState.init).2 :=
+  Multi.run_refines g hg z ops _ _ Multi.Rel.init hs
+
+/-- AddAll(other), then Set on the receiver: the source still holds its own elements -/
+example : (Multi.run Growth.go (0 : Int)
+    [.add 1 5, .add 1 6, .addAll 0 1, .set 0 0 9, .get 1 0, .set 1 1 7, .get 0 1]
+    Multi.MState.init).1 = [.unit, .unit, .unit, .unit, .val 5, .unit, .val 6] := by decide
 
 /-! ### wire form -/
 
